@@ -254,13 +254,21 @@ PayloadOf(q) == "cfg:" \o PathStr(q)     \* what the driver stores under a key
 
 (* ------------------------------------------------------------------------ *)
 (* (c) Rendering.  An entry's content is a sequence of parts                 *)
-(*     [k |-> "lit" | "var" | "inc", x |-> name]; "inc" includes the sibling  *)
-(*     entry (content sib, itself made of "lit"/"var" parts) if it exists.    *)
+(*     [k |-> "lit" | "var" | "ovr" | "ovl" | "up" | "inc", x |-> name];      *)
+(*     "inc" includes the sibling entry (content sib, without "inc" parts)    *)
+(*     if it exists; "ovr" / "ovl" call the one utility function that READS   *)
+(*     the supplied variable stack (configuration/template/stack.go:          *)
+(*     MakeUtilFuncMap closes over varStack only in util.PrefixedOverride,    *)
+(*     also bound as plain PrefixedOverride); "up" calls a utility that does  *)
+(*     not (strings.ToUpper).                                                 *)
 (*     vars is a sequence of <<name, value token>> with distinct names.       *)
 (* ------------------------------------------------------------------------ *)
 LitStr(x) == CASE x = "L" -> "lit " [] x = "J" -> "x=\n " [] OTHER -> x
 ValStr(x) == CASE x = "V" -> "val" [] x = "W" -> "w w" [] x = "E" -> "" [] x = "B" -> "{{ w }}"
-               [] x = "Q" -> "[\"a\",\"b\"]" [] x = "H" -> "<a&b>'" [] OTHER -> x
+               [] x = "Q" -> "[\"a\",\"b\"]" [] x = "H" -> "<a&b>'"
+               [] x = "Z" -> "zz" [] x = "O" -> "none" [] x = "S" -> "  " [] OTHER -> x
+UpStr(x)  == CASE x = "V" -> "VAL" [] x = "W" -> "W W" [] x = "Z" -> "ZZ" [] x = "O" -> "NONE" [] OTHER -> ValStr(x)  \* strings.ToUpper
+Prefix0   == "p"                      \* the prefix literal used in the templates: looks up p_<name>, then <name>
 EscStr(x) == CASE x = "Q" -> "[&quot;a&quot;,&quot;b&quot;]" [] x = "H" -> "&lt;a&amp;b&gt;&#39;" [] OTHER -> ValStr(x)
 SiblingName == "sib"
 
@@ -270,9 +278,20 @@ Rendered(str) == [ok |-> TRUE, out |-> str]
 Bound(vars, n) == \E i \in 1..Len(vars) : vars[i][1] = n
 ValueOf(vars, n) == vars[CHOOSE i \in 1..Len(vars) : vars[i][1] = n][2]
 
+\* util.PrefixedOverride(varname, prefix) on the variable stack vars: the value token, or "E" (nothing).
+\* A value that is "none" or blank counts as absent (stack.go).
+NullVal(x) == x \in {"O", "E", "S"}
+Present(vars, n) == Bound(vars, n) /\ ~NullVal(ValueOf(vars, n))
+PrefixedOverride(vars, n) ==
+  LET pn == Prefix0 \o "_" \o n
+  IN IF Present(vars, pn) THEN ValueOf(vars, pn) ELSE IF Present(vars, n) THEN ValueOf(vars, n) ELSE "E"
+
 \* the template text stored in the backend
 SrcPart(p) == CASE p.k = "lit" -> LitStr(p.x)
                 [] p.k = "var" -> "{{ " \o p.x \o " }}"
+                [] p.k = "ovr" -> "{{ util.PrefixedOverride(\"" \o p.x \o "\", \"" \o Prefix0 \o "\") }}"
+                [] p.k = "ovl" -> "{{ PrefixedOverride(\"" \o p.x \o "\", \"" \o Prefix0 \o "\") }}"
+                [] p.k = "up"  -> "{{ strings.ToUpper(" \o p.x \o ") }}"
                 [] OTHER -> "{% include \"" \o SiblingName \o "\" %}"
 RECURSIVE Source(_)
 Source(parts) == IF parts = <<>> THEN "" ELSE SrcPart(Head(parts)) \o Source(Tail(parts))
@@ -287,6 +306,10 @@ RenderWith(parts, sib, hasSib, vars, esc) ==
                  [] p.k = "var" -> IF Bound(vars, p.x)
                                      THEN Rendered(IF esc THEN EscStr(ValueOf(vars, p.x)) ELSE ValStr(ValueOf(vars, p.x)))
                                      ELSE Rendered("")            \* unknown variable renders as nothing
+                 [] p.k \in {"ovr", "ovl"} ->
+                      LET v == PrefixedOverride(vars, p.x) IN Rendered(IF esc THEN EscStr(v) ELSE ValStr(v))
+                 [] p.k = "up" -> IF Bound(vars, p.x) THEN Rendered(UpStr(ValueOf(vars, p.x)))
+                                  ELSE RenderError                \* pongo2 refuses to pass nil for a string parameter
                  [] OTHER -> IF hasSib THEN RenderWith(sib, <<>>, FALSE, vars, esc) ELSE RenderError
     IN IF ~one.ok \/ ~rest.ok THEN RenderError ELSE Rendered(one.out \o rest.out)
 
